@@ -52,9 +52,9 @@ def _params(name):
     return p
 
 
-def make_model(name):
-    """An instance of the named model whose initial occupancies are all equal, so that the
-    scripted rng.random() values select each node's initial compartment."""
+def make_model(name, inst=None):
+    """An instance (optionally a NAMED instance) of the named model whose initial occupancies are all
+    equal, so that the scripted rng.random() values select each node's initial compartment."""
     import epydemic as E
     from epydemic.opinion_model import MultiCompartmentedEdgeLocus
     if name in SYNTH:
@@ -84,7 +84,7 @@ def make_model(name):
             for c in cs:
                 self.changeCompartmentInitialOccupancy(c, 1.0 / len(cs))
     Uniform.__name__ = name
-    return Uniform()
+    return Uniform(inst) if inst is not None else Uniform()
 
 
 _K = {}
@@ -105,25 +105,17 @@ def n_compartments(name):
     return _K[name]
 
 
-class Live:
-    """A model instance set up on a real dynamics, with the views the harness needs."""
+class View:
+    """What the harness needs to see of ONE compartmented model instance living on a real dynamics
+    (alone, or as a named instance in a ProcessSequence next to others on the same network)."""
 
-    def __init__(self, name, nodes, edges, init, dynamics='stochastic', seed=1):
+    def __init__(self, name, m, d, k):
         import epydemic as E
         from epydemic.opinion_model import MultiCompartmentedEdgeLocus
         self.name = name
-        g = networkx.Graph()
-        g.add_nodes_from(nodes)
-        g.add_edges_from([tuple(e) for e in edges])
-        self.m = make_model(name)
-        k = n_compartments(name)
-        script = [(i + 0.5) / k for i in init]
-        self.oracle = install(Oracle(seed=seed, script={'random': script}))
-        cls = E.StochasticDynamics if dynamics == 'stochastic' else E.SynchronousDynamics
-        self.d = cls(self.m, E.FixedNetwork(g))
-        self.params = _params(name)
-        self.d.setUp(self.params)
-        self.g = self.d.network()
+        self.m = m
+        self.d = d
+        self.g = d.network()
         self.comps = list(self.m.compartments())
         assert len(self.comps) == k, (name, self.comps)
         # ---- tie A: what the live loci objects say they track
@@ -197,6 +189,8 @@ class Live:
             rates = self.d.eventRateDistribution(0.0)[:len(dist)]      # per-element events come first
             ev = []
             for (l, pr, _, _), (l2, rate, _, _) in zip(dist, rates):
+                if l.process() is not self.m:
+                    continue                                           # an event of another instance
                 ix = [i for i, (_, ll, _) in enumerate(self.loci) if ll is l]
                 ev.append({'locus': ix[0] if ix else None,
                            'elements': None if ix else [(list(x) if isinstance(x, tuple) else x) for x in l],
@@ -238,6 +232,49 @@ class Live:
             raise
         except Exception as e:      # observable behaviour of an invalid call
             return type(e).__name__ + ': ' + str(e)[:80]
+
+
+class Live(View):
+    """A single model instance set up on a real dynamics."""
+
+    def __init__(self, name, nodes, edges, init, dynamics='stochastic', seed=1):
+        import epydemic as E
+        g = networkx.Graph()
+        g.add_nodes_from(nodes)
+        g.add_edges_from([tuple(e) for e in edges])
+        m = make_model(name)
+        k = n_compartments(name)
+        script = [(i + 0.5) / k for i in init]
+        self.oracle = install(Oracle(seed=seed, script={'random': script}))
+        cls = E.StochasticDynamics if dynamics == 'stochastic' else E.SynchronousDynamics
+        d = cls(m, E.FixedNetwork(g))
+        self.params = _params(name)
+        d.setUp(self.params)
+        View.__init__(self, name, m, d, k)
+
+
+class LiveMulti:
+    """Several (named) instances on one network: ProcessSequence built from a dict, as the cookbook's
+    co-infection recipe does.  instances: [(model name, instance name or None)]; inits: one list of
+    initial compartment indices per instance (initialCompartments runs instance after instance)."""
+
+    def __init__(self, instances, nodes, edges, inits, dynamics='stochastic', seed=1):
+        import epydemic as E
+        g = networkx.Graph()
+        g.add_nodes_from(nodes)
+        g.add_edges_from([tuple(e) for e in edges])
+        ms = [make_model(nm, inst) for (nm, inst) in instances]
+        ks = [n_compartments(nm) for (nm, _) in instances]
+        script = [(i + 0.5) / k for k, init in zip(ks, inits) for i in init]
+        self.oracle = install(Oracle(seed=seed, script={'random': script}))
+        self.seq = E.ProcessSequence({(inst if inst is not None else nm): m for (nm, inst), m in zip(instances, ms)})
+        cls = E.StochasticDynamics if dynamics == 'stochastic' else E.SynchronousDynamics
+        self.d = cls(self.seq, E.FixedNetwork(g))
+        self.params = {}
+        for (nm, _) in instances:
+            self.params.update(_params(nm))
+        self.d.setUp(self.params)
+        self.views = [View(nm, m, self.d, k) for (nm, _), m, k in zip(instances, ms, ks)]
 
 
 # ------------------------------------------------------------------ a shadow of the network state for the generator and for D
